@@ -238,10 +238,18 @@ func applyInt64Constraints(constraints *validate.FieldRules, schema *base.Schema
 		schema.ExclusiveMaximum = &base.DynamicValue[bool, float64]{N: 1, B: maxValue}
 	}
 
+	// an int64 travels as a decimal string unless int64_encoding says NUMBER: its const and in
+	// values are then strings too
+	tag := ""
+	if slices.Contains(schema.Type, headerTypeString) {
+		tag = "!!str"
+	}
+
 	// Const value
 	if int64Constraints.HasConst() {
 		schema.Const = &yaml.Node{
 			Kind:  yaml.ScalarNode,
+			Tag:   tag,
 			Value: strconv.FormatInt(int64Constraints.GetConst(), 10),
 		}
 	}
@@ -252,6 +260,7 @@ func applyInt64Constraints(constraints *validate.FieldRules, schema *base.Schema
 		for _, value := range int64Constraints.GetIn() {
 			schema.Enum = append(schema.Enum, &yaml.Node{
 				Kind:  yaml.ScalarNode,
+				Tag:   tag,
 				Value: strconv.FormatInt(value, 10),
 			})
 		}
